@@ -675,7 +675,7 @@ func parent(spec *Spec, tier string, seed int64, onlyLane, raceBin string) int {
 			b, _ := json.MarshalIndent(v, "", " ")
 			_ = os.WriteFile(p, b, 0o644)
 			fmt.Printf("VIOLATION property=%s replay=%s\n", spec.ID, p)
-			d := v.Detail
+			d := printable(v.Detail)
 			if len(d) > 1500 {
 				d = d[:1500] + "..."
 			}
@@ -696,6 +696,16 @@ func parent(spec *Spec, tier string, seed int64, onlyLane, raceBin string) int {
 		return 3
 	}
 	return 0
+}
+
+// printable keeps stdout a text stream: witnesses may quote raw value bytes.
+func printable(s string) string {
+	return strings.Map(func(r rune) rune {
+		if r == '\n' || r == '\t' || (r >= 0x20 && r != 0x7f && r != 0xfffd) {
+			return r
+		}
+		return '?'
+	}, strings.ToValidUTF8(s, "?"))
 }
 
 func sanitize(s string) string {
